@@ -463,7 +463,7 @@ fn main() {
     let n_round = cn.evals.load(Ordering::Relaxed);
 
     // ---- 2. mutations of valid tokens + structured corruptions
-    let full = ctx.tier == Tier::Thorough;
+    let full = true; // every byte value: the whole single-mutation space costs well under a second
     let t1 = issue(&SelS { s: "bob~?>é".into() }).ok().flatten().unwrap_or_else(|| machinery_failure("cannot issue base token 1"));
     let t2 = issue(&SelNS { n: 18446744073709551615, s: "x".into() }).ok().flatten().unwrap_or_else(|| machinery_failure("cannot issue base token 2"));
     let t3 = issue(&SelEnum::ByName { name: "n".into() }).ok().flatten().unwrap_or_else(|| machinery_failure("cannot issue base token 3"));
@@ -473,6 +473,34 @@ fn main() {
     par_for(m2.len(), ncpu(), ctx.seed, |i| check_token::<SelNS>(&ctx, &cn, "mutation", &m2[i], "", &samples));
     let m3 = mutations(t3.as_bytes(), full);
     par_for(m3.len(), ncpu(), ctx.seed, |i| check_token::<SelEnum>(&ctx, &cn, "mutation", &m3[i], "", &samples));
+    // thorough: every double substitution of the shortest token over the base64 alphabet plus 7 outsiders
+    let mut n_double = 0u64;
+    if ctx.tier == Tier::Thorough {
+        let alpha: Vec<u8> = b"ABCDEFGHIJKLMNOPQRSTUVWXYZabcdefghijklmnopqrstuvwxyz0123456789-_=+/ %\x00\xff".to_vec();
+        let base = t3.as_bytes().to_vec();
+        let n = base.len();
+        let pairs: Vec<(usize, usize)> = (0..n).flat_map(|i| ((i + 1)..n).map(move |j| (i, j))).collect();
+        let cnt = AtomicU64::new(0);
+        par_for(pairs.len(), ncpu(), ctx.seed, |k| {
+            let (i, j) = pairs[k];
+            for &a in &alpha {
+                if a == base[i] {
+                    continue;
+                }
+                for &b in &alpha {
+                    if b == base[j] {
+                        continue;
+                    }
+                    let mut t = base.clone();
+                    t[i] = a;
+                    t[j] = b;
+                    check_token::<SelEnum>(&ctx, &cn, "double_mutation", &t, "", &Samples::new(0));
+                    cnt.fetch_add(1, Ordering::Relaxed);
+                }
+            }
+        });
+        n_double = cnt.load(Ordering::Relaxed);
+    }
     for (name, tok) in structured(&SelS { s: "a".into() }) {
         check_token::<SelS>(&ctx, &cn, &name, &tok, "", &samples);
         check_token::<SelNS>(&ctx, &cn, &name, &tok, "", &samples); // wrong selector shape for this endpoint
@@ -510,7 +538,7 @@ fn main() {
         "evaluations": cn.evals.load(Ordering::Relaxed) + live["requests"].as_u64().unwrap_or(0),
         "distinct_nontrivial": cn.accepted.load(Ordering::Relaxed) + cn.nontrivial.load(Ordering::Relaxed) + live["distinct_limits"].as_u64().unwrap_or(0),
         "rule": "(1) for 7 character classes x every length 0..=max_len (and mixed strings, nesting depth, enums, vectors): a token issued by ResultsPage::new is accepted back by PaginationParams (through serde_urlencoded, the Query extractor's decoder) with the same selector; (2) for 3 valid tokens every single-byte substitution / deletion / insertion / truncation / doubling, structured corruptions, crafted tokens of every length around the 512 bound: accept/refuse and the selector equal RefToken (own strict URL-safe base64 + serde_json); (3) page_token=T & every subset of 8 valid/invalid scan parameters => Next(sel(T)); (4) limits, live. Non-trivial = mutated/crafted tokens that are still valid (accepted with a checked selector) + issued tokens within 40 bytes of the bound + distinct limit strings.",
-        "roundtrip_cases": n_round, "mutation_and_corruption_cases": n_mut, "token_wins_cases": n_wins,
+        "roundtrip_cases": n_round, "double_mutation_cases": n_double, "mutation_and_corruption_cases": n_mut, "token_wins_cases": n_wins,
         "accepted_with_checked_selector": cn.accepted.load(Ordering::Relaxed), "refused": cn.refused.load(Ordering::Relaxed),
         "tokens_issued": cn.issued.load(Ordering::Relaxed), "tokens_not_issued_too_large": cn.not_issued.load(Ordering::Relaxed),
         "unclassified_duplicate_keys": cn.unclassified.load(Ordering::Relaxed),
